@@ -81,8 +81,8 @@ Proof.
       * inversion E'; subst. exfalso. eapply Fresh; eauto.
       * eapply (inv_inj _ I); eauto.
     + eapply Forall2_impl; [|apply (inv_objs _ I)].
-      intros x i (H1 & H2 & H3 & H4 & H5). unfold obj_ok. cbn [hist]. splits; auto; try lia.
-      * right; auto.
+      intros x i ((s0 & Es0 & H1) & H2 & H3 & H4 & H5). unfold obj_ok. cbn [hist]. splits; auto; try lia.
+      * exists s0. split; auto. right; auto.
       * intros G. eapply Al; eauto.
   - (* Exit *)
     apply (inv_table_shrink w); auto; cbn [kstep table].
